@@ -18,13 +18,13 @@ root = os.path.dirname(os.path.dirname(os.path.abspath(__file__)))
 verify = {}
 for f in glob.glob(vglob):
     for l in open(f):
-        m = re.match(r"(C\d\d-\d) clean_demo_rc=(\d+) build_rc=(\d+) patched_demo_rc=(\d+) suite=\[(.*)\]$", l.strip())
+        m = re.match(r"(C\d\d-\d+) clean_demo_rc=(\d+) build_rc=(\d+) patched_demo_rc=(\d+) suite=\[(.*)\]$", l.strip())
         if m:
             verify[m.group(1)] = {"demo_on_unchanged_tree": "passes" if m.group(2) == "0" else "FAILS", "builds_with_patch": m.group(3) == "0",
                                   "demo_with_patch": "fails" if m.group(4) != "0" else "PASSES", "repository_suite_with_patch": m.group(5)}
 if suite_rerun and os.path.exists(suite_rerun):
     for l in open(suite_rerun):
-        m = re.match(r"(C\d\d-\d) suite=\[(.*)\]$", l.strip())
+        m = re.match(r"(C\d\d-\d+) suite=\[(.*)\]$", l.strip())
         if m and m.group(1) in verify:
             verify[m.group(1)]["repository_suite_with_patch_rerun_sequentially"] = m.group(2)
 
@@ -33,7 +33,7 @@ if suite_rerun and os.path.exists(suite_rerun):
 manual = os.environ.get("SEEDED_MANUAL")
 if manual and os.path.exists(manual):
     for l in open(manual):
-        m = re.match(r"(C\d\d-\d) clean=(\w+) patched=(\w+)", l.strip())
+        m = re.match(r"(C\d\d-\d+) clean=(\w+) patched=(\w+)", l.strip())
         if m and m.group(1) in verify:
             verify[m.group(1)]["demo_on_unchanged_tree"] = "passes" if m.group(2) == "pass" else "FAILS"
             verify[m.group(1)]["demo_with_patch"] = "fails" if m.group(3) == "fail" else "PASSES"
@@ -46,9 +46,9 @@ def runs(path):
         return out
     lines = open(path).read().split("\n")
     for i, l in enumerate(lines):
-        m = re.match(r"(C\d\d-\d) (C\d\d) (\w+) seed=(\d+) rc=(\d+) :: (.*)$", l)
+        m = re.match(r"(C\d\d-\d+) (C\d\d) (\w+) seed=(\d+) rc=(\d+) :: (.*)$", l)
         if m:
-            detail = [x.strip() for x in lines[i + 1:i + 3] if x.strip() and not re.match(r"C\d\d-\d ", x)]
+            detail = [x.strip() for x in lines[i + 1:i + 3] if x.strip() and not re.match(r"C\d\d-\d+ ", x)]
             out[m.group(1)] = {"rc": int(m.group(5)), "summary": m.group(6).strip(), "detail": detail}
     return out
 
